@@ -179,7 +179,7 @@ def accessor(ctx, letters):
     srange = np.arange(-2, 1.2, 0.2)
     for name in (None, "ndvi"):
         da = xr.DataArray(y.astype("int16").reshape(32, 32, n), dims=("y", "x", "time"), coords=coords, name=name)
-        for p_env in (None, 0.9):
+        for p_env in (None, 0.9, 0.5):
             ds = da.hdc.whit.whitsvc(nodata=nd, srange=srange, p=p_env)
             variant = "ws2doptv" if p_env is None else "ws2doptvp"
             out, lopt = wc.call_variant(variant, y, float(nd), p=p_env, srange=srange)
